@@ -21,6 +21,14 @@
 //!            must say enabled=1, min_rules=2, which is what the default is documented and tested to be); bits 3-4 = how the
 //!            facts are built: 0 add_value, 1 set + create_object + set_nested, 2 from_context, 3 add_value into a scratch
 //!            store, then merge into a store that had a decoy key added and removed, snapshot, clear, restore
+//!            the token may carry a SLOW-WORKER suffix `w<worker>.<step|p>.<ms>`: in every perturbed repetition worker
+//!            <worker> of the first parallelised level sleeps <ms> ms at its schedule point in front of its <step>-th rule
+//!            (0 = before it evaluates its chunk) or at the one in front of the critical section (`p` = before it publishes
+//!            its results), the other workers run freely (see `sched_yield` below: the repository's hook is unchanged)
+//!   rule name := plain word | `%L<pad>.<w>.<k>` = <pad> bytes `a` followed by <k> characters of <w> UTF-8 bytes (1 `b`,
+//!            2 `é`, 3 `請`, 4 `𝄞`) | `%h<hex>` = any UTF-8 text (`%h-` the empty name).  Distinct tokens must decode to
+//!            distinct names; the SAME token twice in one knowledge base is a duplicate name, which `add_rule` rejects
+//!            (that rule is then not in the knowledge base).  Observations print the token, not the decoded name.
 //!   a dotted name may be deeper than one level (`U.p.q`: object `U` holds object `p` holds `q`)
 //!   every further `<facts> <rules>` pair is one more *stage*: a different KnowledgeBase object with the SAME name and
 //!   other facts, run through the SAME two engine objects (one `ParallelRuleEngine` per configuration lives for the
@@ -30,6 +38,7 @@
 //!   run  := `ok/<total_rules_evaluated>/<total_rules_fired>/<name=0|1,…>/<facts after, sorted>`
 //!          | `badstats/…` (the two counters printed by `ParallelExecutionResult::get_stats` are not the fields)
 //!          | `err` | `panic` | `timeout` (watchdog: the call did not return within 8 s) | `timeout-skipped`
+//!          | `slow-not-taken` (a slow-worker run in which no worker reached the chosen schedule point: harness self-check)
 use rre_harness::*;
 use rust_rule_engine::engine::facts::Facts;
 use rust_rule_engine::engine::knowledge_base::KnowledgeBase;
@@ -38,6 +47,7 @@ use rust_rule_engine::engine::rule::{Condition, ConditionGroup, Rule};
 use rust_rule_engine::types::{ActionType, LogicalOperator, Operator, Value};
 use std::collections::{BTreeMap, HashMap};
 use std::io::{BufRead, Write};
+use std::sync::atomic::{AtomicBool, AtomicU64, Ordering};
 use std::sync::{mpsc, Arc};
 use std::time::Duration;
 
@@ -183,6 +193,57 @@ struct Case {
     dbg: u8,
     /// further stages run through the same engine objects
     more: Vec<Stage>,
+    /// slow-worker family: (worker, Some(step) | None = before publishing, milliseconds)
+    slow: Option<(usize, Option<usize>, u64)>,
+}
+
+/// the characters `%L` names are made of, by UTF-8 width
+const WIDE: [&str; 4] = ["b", "\u{e9}", "\u{8acb}", "\u{1d11e}"];
+
+/// the rule name a name token stands for
+fn real_name(tok: &str) -> Option<String> {
+    if let Some(spec) = tok.strip_prefix("%L") {
+        let p: Vec<&str> = spec.split('.').collect();
+        if p.len() != 3 || p.iter().any(|x| x.is_empty() || x.len() > 5 || !x.bytes().all(|b| b.is_ascii_digit())) {
+            return None;
+        }
+        let (pad, w, k): (usize, usize, usize) = (p[0].parse().ok()?, p[1].parse().ok()?, p[2].parse().ok()?);
+        if !(1..=4).contains(&w) || pad + w * k > 70_000 {
+            return None;
+        }
+        Some("a".repeat(pad) + &WIDE[w - 1].repeat(k))
+    } else if let Some(h) = tok.strip_prefix("%h") {
+        unhex(h)
+    } else if tok.is_empty() || tok.contains(|c: char| ",=|%?".contains(c)) {
+        None
+    } else {
+        Some(tok.to_string())
+    }
+}
+
+/// every name token decodes, and two different tokens never stand for the same name
+fn names_ok(sts: &[Stage]) -> bool {
+    sts.iter().all(|st| {
+        let mut seen: HashMap<String, &str> = HashMap::new();
+        st.rules.iter().all(|r| match real_name(&r.name) {
+            None => false,
+            Some(n) => *seen.entry(n).or_insert(r.name.as_str()) == r.name.as_str(),
+        })
+    })
+}
+
+fn parse_slow(s: &str) -> Option<(usize, Option<usize>, u64)> {
+    let p: Vec<&str> = s.split('.').collect();
+    if p.len() != 3 {
+        return None;
+    }
+    let step = if p[1] == "p" { None } else { Some(p[1].parse::<usize>().ok().filter(|s| *s < 64)?) };
+    let (w, ms): (usize, u64) = (p[0].parse().ok()?, p[2].parse().ok()?);
+    (w < 64 && ms >= 1 && ms <= 5000).then_some((w, step, ms))
+}
+
+fn show_slow(sl: &(usize, Option<usize>, u64)) -> String {
+    format!("w{}.{}.{}", sl.0, sl.1.map(|s| s.to_string()).unwrap_or("p".into()), sl.2)
 }
 
 fn parse_facts(s: &str) -> Option<Vec<(String, Val)>> {
@@ -314,8 +375,20 @@ fn parse_case(line: &str) -> Option<Case> {
     }
     let mut dbg = 0u8;
     let mut more = Vec::new();
+    let mut slow = None;
     if t.len() >= 8 {
-        dbg = t[7].strip_prefix('d')?.parse().ok()?;
+        let d = t[7].strip_prefix('d')?;
+        let (d, sl) = match d.split_once('w') {
+            Some((d, sl)) => (d, Some(sl)),
+            None => (d, None),
+        };
+        if let Some(sl) = sl {
+            slow = Some(parse_slow(sl)?);
+        }
+        if d.is_empty() || !d.bytes().all(|b| b.is_ascii_digit()) {
+            return None;
+        }
+        dbg = d.parse().ok()?;
         if dbg > 31 {
             return None;
         }
@@ -333,7 +406,11 @@ fn parse_case(line: &str) -> Option<Case> {
         rules: parse_rules(t[6])?,
         dbg,
         more,
+        slow,
     };
+    if !names_ok(&stages(&c)) {
+        return None;
+    }
     // the default configuration is enabled with min_rules_per_thread = 2
     if c.dbg & 4 != 0 && !(c.en && c.mr == 2) {
         return None;
@@ -365,8 +442,8 @@ fn show_case(c: &Case) -> String {
         show_facts_kv(&c.facts),
         show_rules(&c.rules)
     );
-    if c.dbg != 0 || !c.more.is_empty() {
-        s.push_str(&format!(" d{}", c.dbg));
+    if c.dbg != 0 || !c.more.is_empty() || c.slow.is_some() {
+        s.push_str(&format!(" d{}{}", c.dbg, c.slow.as_ref().map(show_slow).unwrap_or_default()));
         for st in &c.more {
             s.push_str(&format!(" {} {}", show_facts_kv(&st.facts), show_rules(&st.rules)));
         }
@@ -593,11 +670,110 @@ fn show_facts(f: &Facts) -> String {
     }
 }
 
+// ------------------------------------------------------------------ slow-worker support (harness side only)
+//
+// The repository's schedule points (`verif_sched::point`, cfg rre_verif) can only do nothing, `yield_now()` or sleep
+// < 150 µs.  To delay ONE chosen worker for seconds without touching the hook, this binary defines the C symbol
+// `sched_yield` itself — `std::thread::yield_now()` is `libc::sched_yield()`, and a definition in the executable takes
+// precedence over the one in the shared libc — and picks a schedule seed under which the chosen point is the ONLY
+// point of the call that yields (`point` is a pure function of (seed, worker, step), copied in `sched_action`).
+// While a delay is armed, the first `sched_yield` of a thread that is not one of the harness' own sleeps that long.
+// If the copy of the hash ever went stale the delay would not be taken: the run then reports `slow-not-taken`.
+static SLOW_MS: AtomicU64 = AtomicU64::new(0);
+static SLOW_TAKEN: AtomicBool = AtomicBool::new(false);
+thread_local! {
+    static HARNESS_THREAD: std::cell::Cell<bool> = const { std::cell::Cell::new(false) };
+}
+
+extern "C" {
+    fn syscall(num: i64, ...) -> i64;
+}
+
+#[no_mangle]
+pub extern "C" fn sched_yield() -> i32 {
+    if !HARNESS_THREAD.with(|h| h.get()) {
+        let ms = SLOW_MS.swap(0, Ordering::SeqCst);
+        if ms > 0 {
+            SLOW_TAKEN.store(true, Ordering::SeqCst);
+            std::thread::sleep(Duration::from_millis(ms));
+            return 0;
+        }
+    }
+    #[cfg(target_arch = "x86_64")]
+    unsafe {
+        syscall(24);
+    }
+    #[cfg(target_arch = "aarch64")]
+    unsafe {
+        syscall(124);
+    }
+    0
+}
+
+/// what `verif_sched::point(seed, worker, step)` does: 0 nothing, 1 yield_now, 2|3 a sleep below 150 µs
+fn sched_action(seed: u64, thread_id: usize, step: usize) -> u64 {
+    let mut z = seed ^ (thread_id as u64).wrapping_mul(0x9E37_79B9_7F4A_7C15) ^ (step as u64).wrapping_mul(0xD1B5_4A32_D192_ED03);
+    z = (z ^ (z >> 30)).wrapping_mul(0xBF58_476D_1CE4_E5B9);
+    z = (z ^ (z >> 27)).wrapping_mul(0x94D0_49BB_1331_11EB);
+    z ^= z >> 31;
+    z % 4
+}
+
+/// the chunk lengths of every level of the stage that `execute_parallel` runs on worker threads, highest salience
+/// first (needed only to choose the delayed schedule point; no verdict depends on it)
+fn parallel_shapes(st: &Stage, enabled: bool, mt: usize, mr: usize) -> Vec<Vec<usize>> {
+    if !enabled || mt == 0 {
+        return vec![];
+    }
+    let mut seen = std::collections::HashSet::new();
+    let mut levels: BTreeMap<i32, usize> = BTreeMap::new();
+    for r in &st.rules {
+        // a duplicate name is not in the knowledge base, whatever its flags
+        if seen.insert(r.name.clone()) && r.en {
+            *levels.entry(r.sal).or_default() += 1;
+        }
+    }
+    levels
+        .iter()
+        .rev()
+        .filter(|(_, n)| **n >= mr && **n >= 2)
+        .map(|(_, n)| {
+            let cs = n.div_ceil(mt);
+            (0..n.div_ceil(cs)).map(|j| cs.min(n - j * cs)).collect()
+        })
+        .collect()
+}
+
+/// (seed, worker, step) such that under `seed` the point (worker, step) of the first parallelised level is the only
+/// schedule point of the whole call that yields; the wanted worker / step are clamped to what that level has
+fn slow_seed(shapes: &[Vec<usize>], want: &(usize, Option<usize>, u64), from: u64) -> Option<(u64, usize, usize)> {
+    let first = shapes.first()?;
+    let w = want.0.min(first.len() - 1);
+    let step = match want.1 {
+        None => usize::MAX,
+        Some(s) => s.min(first[w] - 1),
+    };
+    let mut pts: Vec<(usize, usize)> = Vec::new();
+    for sh in shapes {
+        for (t, len) in sh.iter().enumerate() {
+            for st in (0..*len).chain([usize::MAX]) {
+                if (t, st) != (w, step) && !pts.contains(&(t, st)) {
+                    pts.push((t, st));
+                }
+            }
+        }
+    }
+    (0..20_000_000u64)
+        .map(|i| from.wrapping_mul(0x9E37_79B9).wrapping_add(i) | 1)
+        .find(|sd| sched_action(*sd, w, step) == 1 && pts.iter().all(|(t, st)| sched_action(*sd, *t, *st) != 1))
+        .map(|sd| (sd, w, step))
+}
+
 static TIMEOUTS: std::sync::atomic::AtomicUsize = std::sync::atomic::AtomicUsize::new(0);
 
 /// one call of the real `execute_parallel` of the given (long-lived) engine on a fresh knowledge base object —
 /// always named "c19" — and fresh facts, guarded by a watchdog ("it always returns")
-fn run_once(engine: &Arc<ParallelRuleEngine>, st: &Stage, enabled: bool, debug: bool, sched_seed: u64, fmode: u8) -> String {
+fn run_once(engine: &Arc<ParallelRuleEngine>, st: &Stage, enabled: bool, debug: bool, sched_seed: u64, fmode: u8, slow_ms: u64) -> String {
     // once three calls have hung in this process, further calls that may spawn workers are not attempted
     // (each would cost the full watchdog time); the hang has been reported by then
     if enabled && TIMEOUTS.load(std::sync::atomic::Ordering::SeqCst) >= 3 {
@@ -609,34 +785,60 @@ fn run_once(engine: &Arc<ParallelRuleEngine>, st: &Stage, enabled: bool, debug: 
     let st = st.clone();
     let engine = Arc::clone(engine);
     let (tx, rx) = mpsc::channel();
+    SLOW_MS.store(0, Ordering::SeqCst);
+    SLOW_TAKEN.store(false, Ordering::SeqCst);
     std::thread::spawn(move || {
+        HARNESS_THREAD.with(|h| h.set(true));
         let kb = KnowledgeBase::new("c19");
+        // decoded name -> token (observations print tokens)
+        let mut tok_of: HashMap<String, String> = HashMap::new();
         for r in &st.rules {
             let Some(cond) = build_cond(&r.cond) else {
                 let _ = tx.send("bad-cond".to_string());
                 return;
             };
             let acts = r.acts.iter().map(build_action).collect();
-            let mut rule = Rule::new(r.name.clone(), cond, acts).with_salience(r.sal);
-            rule.enabled = r.en;
-            if kb.add_rule(rule).is_err() {
-                let _ = tx.send("err-add".to_string());
+            let Some(name) = real_name(&r.name) else {
+                let _ = tx.send("bad-name".to_string());
                 return;
+            };
+            let mut rule = Rule::new(name.clone(), cond, acts).with_salience(r.sal);
+            rule.enabled = r.en;
+            let dup = tok_of.contains_key(&name);
+            match kb.add_rule(rule) {
+                // a name that is already there is rejected: the rule is not in the knowledge base
+                Err(_) if dup => continue,
+                Ok(()) if !dup => {}
+                Err(_) => {
+                    let _ = tx.send("err-add".to_string());
+                    return;
+                }
+                Ok(()) => {
+                    let _ = tx.send("dup-accepted".to_string());
+                    return;
+                }
             }
+            tok_of.insert(name, r.name.clone());
         }
         let Some(facts) = build_facts(&st.facts, fmode) else {
             let _ = tx.send("bad-facts".to_string());
             return;
         };
+        SLOW_MS.store(slow_ms, Ordering::SeqCst);
         let r = std::panic::catch_unwind(std::panic::AssertUnwindSafe(|| engine.execute_parallel(&kb, &facts, debug)));
+        let armed_left = SLOW_MS.swap(0, Ordering::SeqCst);
         let s = match r {
+            _ if slow_ms > 0 && (armed_left != 0 || !SLOW_TAKEN.load(Ordering::SeqCst)) => "slow-not-taken".to_string(),
             Err(_) => "panic".to_string(),
             Ok(Err(_)) => "err".to_string(),
             Ok(Ok(res)) => {
                 let ctxs: Vec<String> = res
                     .execution_contexts
                     .iter()
-                    .map(|x| format!("{}={}", x.rule.name, x.fired as u8))
+                    .map(|x| match tok_of.get(&x.rule.name) {
+                        Some(t) => format!("{}={}", t, x.fired as u8),
+                        None => format!("?{}={}", hex(&x.rule.name), x.fired as u8),
+                    })
                     .collect();
                 // the two counters as `get_stats` prints them
                 let stats = res.get_stats();
@@ -716,14 +918,29 @@ fn exec(case: &str) -> String {
     let (dbg_p, dbg_s) = (c.dbg & 1 != 0, c.dbg & 2 != 0);
     let mut out_stages = Vec::new();
     for st in stages(&c) {
-        let mut out = vec![format!("S:{}", run_once(&eng_s, &st, false, dbg_s, 0, fmode))];
-        out.push(format!("P:{}", run_once(&eng_p, &st, c.en, dbg_p, 0, fmode)));
+        let mut out = vec![format!("S:{}", run_once(&eng_s, &st, false, dbg_s, 0, fmode, 0))];
+        out.push(format!("P:{}", run_once(&eng_p, &st, c.en, dbg_p, 0, fmode, 0)));
+        // slow-worker family: the level shapes of this stage under the configuration the engine really has
+        let shapes = match &c.slow {
+            Some(_) => parallel_shapes(&st, c.en, c.mt, if dflt { 2 } else { c.mr }),
+            None => vec![],
+        };
         for j in 0..c.reps {
             let seed = c.pseed.wrapping_mul(1_000_003).wrapping_add(j as u64 + 1) | 1;
             // contention cases (many repetitions): every other run is unperturbed, so that workers that start
             // together also finish together (races on shared counters need simultaneous, not staggered, workers)
             let seed = if c.reps >= 50 && j % 2 == 1 { 0 } else { seed };
-            out.push(format!("P:{}", run_once(&eng_p, &st, c.en, dbg_p, seed, fmode)));
+            // a delayed worker: the seed under which its schedule point is the only one that yields (nothing is
+            // delayed when no level of this stage runs on worker threads)
+            let (seed, slow_ms) = match c.slow.as_ref().and_then(|sl| slow_seed(&shapes, sl, seed).map(|x| (x.0, sl.2))) {
+                Some(x) => x,
+                None if c.slow.is_some() && !shapes.is_empty() => {
+                    out.push("P:slow-no-seed".to_string());
+                    continue;
+                }
+                None => (seed, 0),
+            };
+            out.push(format!("P:{}", run_once(&eng_p, &st, c.en, dbg_p, seed, fmode, slow_ms)));
         }
         out_stages.push(out.join(" "));
     }
@@ -740,6 +957,7 @@ extern "C" {
 
 fn exec_main() {
     use std::os::fd::{AsRawFd, FromRawFd};
+    HARNESS_THREAD.with(|h| h.set(true));
     let saved = unsafe { dup(1) };
     let null = std::fs::OpenOptions::new().write(true).open("/dev/null").unwrap();
     unsafe { dup2(null.as_raw_fd(), 1) };
@@ -923,6 +1141,7 @@ fn gen_case(rng: &mut Rng, reps: usize) -> Case {
         rules,
         dbg: gen_dbg(rng),
         more: vec![],
+        slow: None,
     }
 }
 
@@ -1025,6 +1244,7 @@ fn gen_lookalike(rng: &mut Rng, reps: usize) -> Case {
         rules,
         dbg: gen_dbg(rng),
         more: vec![],
+        slow: None,
     }
 }
 
@@ -1192,6 +1412,145 @@ fn gen_action_kinds(rng: &mut Rng, k: usize) -> Case {
     c
 }
 
+fn hx(s: &str) -> String {
+    format!("%h{}", hex(s))
+}
+
+/// short names that are legal `String`s but unusual: empty, blanks, separators of the text formats around the engine,
+/// format-string and quote characters, control characters, a name spelled like a name token
+const ODD_NAMES: [&str; 30] = [
+    "", " ", "  ", "\t", "\n", " r0", "r0 ", "r 0", "r0\n", "a/b", "a;b", "a,b", "a=b", "a:b", "a_b", "a|b", "%", "%L1.1.1", "%h41", "'",
+    "\"", "{}", "{0}", "\\", "\0", "rule \"x\" {", "//", "#", "\u{feff}r0", "\u{200b}",
+];
+/// names that differ only in case (ASCII and not), in normalisation form, or by a look-alike letter
+const TWIN_NAMES: [&str; 16] = [
+    "Rule", "rule", "RULE", "rULE", "\u{c9}t\u{e9}", "\u{e9}t\u{e9}", "e\u{301}te\u{301}", "\u{c9}T\u{c9}", "stra\u{df}e", "STRASSE", "strasse", "\u{130}", "i", "I",
+    "\u{131}", "\u{43e}k",
+];
+/// byte offsets a truncation / fixed buffer / length byte would use
+const NAME_OFFSETS: [usize; 12] = [40, 40, 40, 64, 64, 255, 255, 16, 32, 128, 256, 1024];
+
+/// one name token of the given class for rule `i` (classes: 0 a multi-byte character at every alignment around a byte
+/// offset, 1 multi-byte characters only, 2 long ASCII, 3 odd short names, 4 case / normalisation twins, 5 any)
+fn gen_name(rng: &mut Rng, class: u64, i: usize, off: usize, w: usize) -> String {
+    match class {
+        0 => {
+            // the character starts d bytes in front of the offset: d = 0 (boundary at the offset) .. w (ends there)
+            let d = i % (w + 1);
+            let pad = off.saturating_sub(d);
+            let k = (off + 4 * w - pad) / w + 1 + i / (w + 1);
+            format!("%L{}.{}.{}", pad, w, k)
+        }
+        1 => format!("%L0.{}.{}", w, off / w + 1 + i),
+        2 => format!("%L0.1.{}", off - 1 + i),
+        3 => hx(ODD_NAMES[(off + i) % ODD_NAMES.len()]),
+        4 => {
+            let t = TWIN_NAMES[(off + i) % TWIN_NAMES.len()];
+            if t.is_ascii() { t.to_string() } else { hx(t) }
+        }
+        _ => {
+            let (off, w) = (*rng.pick(&NAME_OFFSETS), rng.range(2, 4) as usize);
+            let (class, shift) = (rng.below(5), rng.below(5) as usize);
+            gen_name(rng, class, i + shift, off, w)
+        }
+    }
+}
+
+/// UNUSUAL BUT LEGAL RULE NAMES: longer than 40 / 64 / 255 / … bytes with a 2-, 3- or 4-byte character at every
+/// alignment around that offset, multi-byte only, long ASCII, empty / blank / separator / control-character names,
+/// names differing only in case or normalisation, and the same name twice in one knowledge base (rejected by
+/// `add_rule`) — under debug_mode on and off for both paths, parallelism on and off.  Half of the cases are random
+/// plain cases, half a level of simple rules most of which fire.
+fn gen_names(rng: &mut Rng, k: usize) -> Case {
+    let mut c = gen_case(rng, 1);
+    if k % 2 == 0 {
+        let n = rng.range(2, 12) as usize;
+        c.facts = vec![("a".to_string(), Val::I(1))];
+        let two_levels = rng.chance(1, 4);
+        c.rules = (0..n)
+            .map(|i| RuleSpec {
+                name: String::new(),
+                sal: if two_levels && i % 3 == 0 { 5 } else { 0 },
+                en: !rng.chance(1, 10),
+                cond: vec![Tok::Leaf("a".to_string(), if rng.chance(1, 4) { "lt" } else { "ge" }.to_string(), Val::I(1))],
+                acts: vec![],
+            })
+            .collect();
+        c.mt = *rng.pick(&[1usize, 2, 2, 3, 4, 16]);
+        c.mr = rng.range(1, 2) as usize;
+    }
+    c.en = !rng.chance(1, 6);
+    c.dbg = (k / 2 % 4) as u8;
+    let class = rng.below(7).min(5);
+    let (off, w) = (*rng.pick(&NAME_OFFSETS), rng.range(2, 4) as usize);
+    let mut used: Vec<String> = Vec::new();
+    for i in 0..c.rules.len() {
+        // the finite classes (odd, twins) run out of names: the rest of the rules draw from every class, then plain
+        let mut tries = 0;
+        let name = loop {
+            let t = match tries {
+                0 => gen_name(rng, class, i, off, w),
+                1..=20 => gen_name(rng, 5, i + tries, off, w),
+                _ => format!("r{}", i + tries),
+            };
+            tries += 1;
+            let real = real_name(&t).unwrap();
+            if !used.contains(&real) {
+                used.push(real);
+                break t;
+            }
+        };
+        c.rules[i].name = name;
+    }
+    // the same name twice (or three times): the later rule — other condition, maybe other salience — is rejected
+    if c.rules.len() >= 2 && rng.chance(1, 4) {
+        for _ in 0..rng.range(1, 2) {
+            let j = rng.range(1, c.rules.len() as u64 - 1) as usize;
+            let i = rng.below(j as u64) as usize;
+            c.rules[j].name = c.rules[i].name.clone();
+        }
+    }
+    c
+}
+
+/// SLOW WORKER: one level (or two) of simple rules that is really split over workers; in the perturbed repetition one
+/// worker — first, middle or last — sleeps `ms` milliseconds before it evaluates its chunk (`step` 0), in the middle
+/// of it, or before it publishes its results, while the others run freely.  Every rule's verdict must still arrive.
+fn gen_slow(rng: &mut Rng, k: usize, ms: u64) -> Case {
+    let mut c = gen_case(rng, 1);
+    // (rules, max_threads, worker, step)
+    let shapes: [(usize, usize, usize, Option<usize>); 8] = [
+        (4, 2, 1, Some(0)),
+        (6, 3, 0, None),
+        (5, 2, 0, Some(0)),
+        (16, 16, 7, None),
+        (3, 4, 2, Some(0)),
+        (9, 4, 1, Some(1)),
+        (24, 16, 11, None),
+        (2, 2, 0, None),
+    ];
+    let (n, mt, w, step) = shapes[k % shapes.len()];
+    c.en = true;
+    c.mt = mt;
+    c.mr = 1 + k % 2;
+    c.reps = 1;
+    c.dbg = [0u8, 1, 0, 3][k / 2 % 4];
+    c.facts = vec![("a".to_string(), Val::I(1))];
+    // every third case has a second, lower level behind the delayed one (it must wait for the join)
+    let tail = if k % 3 == 2 { 3 } else { 0 };
+    c.rules = (0..n + tail)
+        .map(|i| RuleSpec {
+            name: format!("r{}", i),
+            sal: if i < n { 5 } else { 0 },
+            en: true,
+            cond: vec![Tok::Leaf("a".to_string(), if i % 4 == 3 { "lt" } else { "ge" }.to_string(), Val::I(1))],
+            acts: vec![],
+        })
+        .collect();
+    c.slow = Some((w, step, ms));
+    c
+}
+
 fn gen(rng: &mut Rng, n: usize, tier: &str) -> Vec<String> {
     let reps = if tier == "thorough" { 4 } else { 3 };
     let mut out = Vec::new();
@@ -1252,6 +1611,19 @@ fn gen(rng: &mut Rng, n: usize, tier: &str) -> Vec<String> {
             .collect();
         out.push(show_case(&c));
     }
+    // slow-worker family: each case costs its sleep (quick: 2 x 1.3 s + 1 x 2.5 s + a few short ones here, 1 x 1.3 s in the corpus)
+    let delays: &[u64] = if tier == "thorough" {
+        &[1300, 2500, 1300, 2500, 1300, 2500, 1300, 2500, 1300, 2500, 1300, 1100, 1600, 3500, 1300, 2500, 20, 120, 400, 700, 5, 50, 250, 900]
+    } else {
+        &[1300, 2500, 1300, 20, 120, 400]
+    };
+    for (k, ms) in delays.iter().enumerate() {
+        out.push(show_case(&gen_slow(rng, k, *ms)));
+    }
+    // unusual rule names
+    for k in 0..n / 8 {
+        out.push(show_case(&gen_names(rng, k)));
+    }
     // every action kind on a parallelised level
     for k in 0..(if tier == "thorough" { 48 } else { 12 }) {
         out.push(show_case(&gen_action_kinds(rng, k)));
@@ -1288,6 +1660,70 @@ fn shrink(case: &str) -> Vec<String> {
     let Some(c) = parse_case(case) else { return vec![] };
     let mut out = Vec::new();
     let sts = stages(&c);
+    // a slow-worker case: every candidate that still delays a worker costs its sleep — a short list only
+    if let Some(sl) = c.slow {
+        let mut d = c.clone();
+        d.slow = None;
+        out.push(show_case(&d));
+        if sl.2 > 1300 {
+            let mut d = c.clone();
+            d.slow = Some((sl.0, sl.1, 1300));
+            out.push(show_case(&d));
+        }
+        if c.dbg != 0 {
+            let mut d = c.clone();
+            d.dbg = 0;
+            out.push(show_case(&d));
+        }
+        if c.rules.len() > 2 {
+            for rs in [c.rules[..2].to_vec(), c.rules[..c.rules.len() / 2].to_vec(), c.rules[..c.rules.len() - 1].to_vec()] {
+                let mut d = c.clone();
+                d.rules = rs;
+                out.push(show_case(&d));
+            }
+        }
+        if c.mt > 2 {
+            let mut d = c.clone();
+            d.mt = 2;
+            d.slow = Some((sl.0.min(1), sl.1, sl.2));
+            out.push(show_case(&d));
+        }
+        if c.mr > 1 {
+            let mut d = c.clone();
+            d.mr = 1;
+            out.push(show_case(&d));
+        }
+        for i in 0..c.rules.len() {
+            if c.rules[i].sal != 0 {
+                let mut d = c.clone();
+                d.rules[i].sal = 0;
+                out.push(show_case(&d));
+                break;
+            }
+        }
+        out.dedup();
+        return out;
+    }
+    // unusual names: all of them plain at once, then one by one; shorter `%L` names
+    let plain = |st: &Stage, i: usize| -> Option<String> {
+        let t = format!("n{}", i);
+        (st.rules[i].name.starts_with('%') && !st.rules.iter().any(|r| r.name == t)).then_some(t)
+    };
+    if sts.iter().any(|st| st.rules.iter().any(|r| r.name.starts_with('%'))) {
+        let mut v = sts.clone();
+        for st in v.iter_mut() {
+            for i in 0..st.rules.len() {
+                if let Some(t) = plain(st, i) {
+                    let old = st.rules[i].name.clone();
+                    // duplicates stay duplicates
+                    for r in st.rules.iter_mut().filter(|r| r.name == old) {
+                        r.name = t.clone();
+                    }
+                }
+            }
+        }
+        out.push(show_case(&from_stages(&c, v)));
+    }
     // fewer stages: drop one (the first included: the next one is promoted)
     if sts.len() > 1 {
         for i in (0..sts.len()).rev() {
@@ -1343,6 +1779,29 @@ fn shrink(case: &str) -> Vec<String> {
         let mut d = c.clone();
         d.reps = 0;
         out.push(show_case(&d));
+    }
+    for (k, st) in sts.iter().enumerate() {
+        for i in 0..st.rules.len() {
+            let old = &st.rules[i].name;
+            let mut cands: Vec<String> = plain(st, i).into_iter().collect();
+            if let Some(spec) = old.strip_prefix("%L") {
+                let p: Vec<usize> = spec.split('.').filter_map(|x| x.parse().ok()).collect();
+                if p.len() == 3 {
+                    for (pad, kk) in [(p[0], p[2] / 2), (p[0], p[2].saturating_sub(1)), (p[0] / 2, p[2]), (p[0].saturating_sub(1), p[2])] {
+                        cands.push(format!("%L{}.{}.{}", pad, p[1], kk));
+                    }
+                }
+            }
+            for t in cands {
+                if &t != old && !st.rules.iter().any(|r| r.name == t || real_name(&r.name) == real_name(&t)) {
+                    let mut v = sts.clone();
+                    for r in v[k].rules.iter_mut().filter(|r| &r.name == old) {
+                        r.name = t.clone();
+                    }
+                    out.push(show_case(&from_stages(&c, v)));
+                }
+            }
+        }
     }
     for (k, st) in sts.iter().enumerate() {
         for i in 0..st.rules.len() {
